@@ -931,7 +931,16 @@ class Camera(Sub):
             z = 10.0 ** rs.uniform(-2, 2, size=(n, N))
             sg = {"pos": np.ones((n, N)), "neg": -np.ones((n, N)), "mixed": rs.choice([-1.0, 1.0], size=(n, N))}[case["zsign"]]
             xy = rs.randn(n, N, 2) * 10.0 ** rs.uniform(-2, 2)
-            return _rnd(np.concatenate([xy, (z * sg)[..., None]], -1), dtype).reshape(list(shape) + [N, 3])
+            return _rnd(np.concatenate([xy, (z * sg)[..., None]], -1) * scene, dtype).reshape(list(shape) + [N, 3])
+
+        # the pinhole projection does not depend on the unit of length: one case in four is a tiny scene (all coordinates scaled by
+        # 10^-22..10^-6 in float64, 10^-12..10^-5 in float32, far from underflow) whose depths are below eps of the dtype - a
+        # divisor clamped at eps instead of the smallest normal number changes nothing for metre-sized scenes (seed C18h)
+        scene = 1.0
+        if tu.crc(case, "scene") % 4 == 0:
+            rs_s = np.random.RandomState((case["seed"] + 977) % 2 ** 31)
+            scene = 10.0 ** (rs_s.uniform(-22, -6) if dtype == "float64" else rs_s.uniform(-12, -5))
+            rec.label("tiny_scene:%s" % ("depth<eps" if scene * 100 < eps else "depth~eps"))
 
         neg = case["fx"] < 0 or case["fy"] < 0 or case["zsign"] != "pos"
         rec.label(dtype, "rank%d" % len(full), "z_" + case["zsign"], "fx<0" if case["fx"] < 0 else "fx>0", "fy<0" if case["fy"] < 0 else "fy>0",
